@@ -30,6 +30,7 @@ type WorldOptions struct {
 	ListMax       int // upper bound for generated list lengths (default 3)
 	EntitiesMax   int // upper bound for entities per Node type (default 4)
 	Subscriptions bool
+	UnionBias     bool // a third of the Node-type fields are of the union type
 }
 
 func DefaultWorldOptions() WorldOptions {
@@ -103,7 +104,7 @@ func NewWorld(rng *rand.Rand, opt WorldOptions) *World {
 			s.Defs = append(s.Defs, &Def{Kind: "OBJECT", Name: v.name, Fields: append([]Field(nil), v.fields...)})
 		}
 	}
-	if opt.Unions && k >= 2 && rng.Intn(2) == 0 {
+	if opt.Unions && k >= 2 && (rng.Intn(2) == 0 || opt.UnionBias) {
 		w.Unions["U"] = []string{w.NodeType[0], w.NodeType[1]}
 	}
 	ensureUnion := func(s *Service, u string) {
@@ -128,6 +129,9 @@ func NewWorld(rng *rand.Rand, opt WorldOptions) *World {
 	}
 	nodeFields := map[string][]nfield{}
 	pickKind := func() fieldKind {
+		if opt.UnionBias && len(w.Unions) > 0 && rng.Intn(3) == 0 {
+			return []fieldKind{fkUnion, fkUnions}[rng.Intn(2)]
+		}
 		r := rng.Intn(20)
 		switch {
 		case r < 5:
